@@ -112,7 +112,7 @@ def oracle_C07(ctx, pexpect, results, n_extra):
         for which in (0, 1, 2, 3, 'async'):
             tried += 1
             try:
-                got, logged = read_pieces(pexpect, which, enc, errors, pieces)
+                got, logged = read_pieces(pexpect, which, enc, errors, pieces, rng)
             except Exception as e:
                 ctx.hit('C07/raises', '%s transport, %s/%s, pieces %r: raised %r' % (which, enc, errors, pieces, e),
                         {'transport': which, 'encoding': enc, 'errors': errors, 'pieces': [list(p) for p in pieces]})
@@ -125,7 +125,7 @@ def oracle_C07(ctx, pexpect, results, n_extra):
     ctx.oracle_stats['other_encodings_runs'] = tried
 
 
-def read_pieces(pexpect, which, enc, errors, pieces):
+def read_pieces(pexpect, which, enc, errors, pieces, rng=None):
     """feed the pieces through one transport's real read path; returns (delivered text, text written to logfile_read)"""
     log = io.StringIO()
     if which == 'async':
@@ -174,6 +174,27 @@ def read_pieces(pexpect, which, enc, errors, pieces):
         for cm in ctxs:
             st.enter_context(cm)
         for p in pieces:
+            if rng is not None and rng.random() < 0.5:
+                # between two reads the application does other things with the object (and with other objects): none of them
+                # may disturb the decoding of the stream
+                x = rng.random()
+                if x < 0.35:
+                    c.buffer = rng.choice(['', 'X']) + c.buffer           # assigning the pending text
+                elif x < 0.5:
+                    str(c)
+                    c.before, c.after, c.buffer
+                elif x < 0.75:
+                    from pexpect.spawnbase import SpawnBase
+                    other = SpawnBase(encoding=enc, codec_errors=errors)     # another object with the same encoding, mid-character
+                    try:
+                        other._decoder.decode('é☃'.encode(enc)[:-1], False)
+                    except UnicodeError:
+                        pass
+                else:
+                    try:
+                        c.expect_exact(['\x00never\x00'], timeout=0) if which != 2 else None
+                    except (pexpect.TIMEOUT, pexpect.EOF):
+                        pass
             if which == 2:
                 c._read_queue.put(p)
                 out += c.read_nonblocking(10 ** 6, timeout=1)
